@@ -14,6 +14,7 @@ macro_rules! c21_roundtrip {
     ($name:ident, $L:expr, $tmpl:expr, $P1:expr, $P2:expr) => {
         #[kani::proof]
         #[kani::unwind(10)]
+        #[kani::stub(arcu::epoch_counters::with_thread_local_epoch_counter, st_epoch)]
         fn $name() {
             const L: usize = $L;
             let mut b: [u8; L] = *$tmpl;
@@ -60,6 +61,7 @@ macro_rules! c21_distinct_ordered {
     ($name:ident, $L:expr, $tmpl:expr, $P:expr) => {
         #[kani::proof]
         #[kani::unwind(10)]
+        #[kani::stub(arcu::epoch_counters::with_thread_local_epoch_counter, st_epoch)]
         fn $name() {
             const L: usize = $L;
             let mut b1: [u8; L] = *$tmpl;
@@ -86,6 +88,7 @@ c21_distinct_ordered!(c21_order_6_last, 6, b"abcdef", 5);
 // a shorter text that is a prefix of a longer one is a different, smaller atom
 #[kani::proof]
 #[kani::unwind(10)]
+#[kani::stub(arcu::epoch_counters::with_thread_local_epoch_counter, st_epoch)]
 fn c21_prefix_is_smaller() {
     let x: u8 = kani::any();
     kani::assume(x != 0 && x < 128);
@@ -100,6 +103,7 @@ fn c21_prefix_is_smaller() {
 // char atoms: every non-NUL char has the index its one-char text has; NUL maps to the static atom
 #[kani::proof]
 #[kani::unwind(10)]
+#[kani::stub(arcu::epoch_counters::with_thread_local_epoch_counter, st_epoch)]
 fn c21_char_atom() {
     let c: char = kani::any();
     let cell = AtomCell::new_char_inlined(c);
@@ -119,6 +123,7 @@ fn c21_char_atom() {
 // AtomCell packs (index, arity) losslessly for every index below 2^49 (48-bit name + inline bit)
 #[kani::proof]
 #[kani::unwind(10)]
+#[kani::stub(arcu::epoch_counters::with_thread_local_epoch_counter, st_epoch)]
 fn c21_atom_cell_packing() {
     let idx: u64 = kani::any();
     kani::assume(idx < (1u64 << 49));
